@@ -219,7 +219,13 @@ func (vc *VC) unsupported(st *State, what string, pos token.Position) {
 }
 
 // query renders the SMT-LIB text of an obligation.
-func (o *Obligation) query(withModel bool) string {
+func (o *Obligation) query(withModel bool) string { return o.queryMode(withModel, false) }
+
+// queryMode: with tight set, only the definitions the goal depends on and the
+// assumptions that speak about nothing else are included (no quantified
+// background axioms). A proof from fewer hypotheses is still a proof; a failure
+// in tight mode decides nothing and the full query is tried next.
+func (o *Obligation) queryMode(withModel, tight bool) string {
 	vc := o.vc
 	var b strings.Builder
 	b.WriteString("; " + o.Name + "\n(set-logic ALL)\n")
@@ -228,10 +234,17 @@ func (o *Obligation) query(withModel bool) string {
 		b.WriteString("(assert " + a.smt + ")\n")
 	}
 	for _, f := range vc.globals {
+		if tight && strings.Contains(f, "(forall") {
+			continue
+		}
 		b.WriteString(f)
 		b.WriteByte('\n')
 	}
-	for _, f := range relevantFacts(vc.facts[:o.Prefix], o.Hyp+" "+o.Goal) {
+	facts := relevantFacts(vc.facts[:o.Prefix], o.Hyp+" "+o.Goal)
+	if tight {
+		facts = tightFacts(vc.facts[:o.Prefix], o.Hyp+" "+o.Goal)
+	}
+	for _, f := range facts {
 		b.WriteString(f)
 		b.WriteByte('\n')
 	}
@@ -396,6 +409,10 @@ func (vc *VC) mergeVals(conds []string, vals []*Val, name string) (*Val, bool) {
 	n := vc.fresh(name, vc.u.sortOf(v0.T))
 	for i, v := range vals {
 		vc.assume(implies(conds[i], eq(n, v.S)))
+	}
+	// the merged value is one of well-formed values: it is well-formed
+	if v0.T != nil {
+		vc.assumeWF(n, v0.T)
 	}
 	return &Val{T: v0.T, S: n}, true
 }
@@ -597,6 +614,87 @@ func relevantFacts(facts []string, goal string) []string {
 	for i, f := range facts {
 		if infos[i].decl != "" {
 			if rel[infos[i].decl] {
+				out = append(out, f)
+			}
+			continue
+		}
+		if keep[i] {
+			out = append(out, f)
+		}
+	}
+	return out
+}
+
+// tightFacts: definitional closure of the goal's local symbols plus the
+// quantifier-free assumptions that mention only symbols already in the closure.
+func tightFacts(facts []string, goal string) []string {
+	defOf := map[string][]int{}
+	syms := make([][]string, len(facts))
+	isDecl := make([]string, len(facts))
+	isDef := make([]bool, len(facts))
+	for i, f := range facts {
+		if m := declRe.FindStringSubmatch(f); m != nil {
+			isDecl[i] = m[1]
+			continue
+		}
+		seen := map[string]bool{}
+		for _, sy := range localSymRe.FindAllString(f, -1) {
+			if !seen[sy] {
+				seen[sy] = true
+				syms[i] = append(syms[i], sy)
+			}
+		}
+		if m := defRe.FindStringSubmatch(f); m != nil {
+			isDef[i] = true
+			defOf[m[1]] = append(defOf[m[1]], i)
+		}
+	}
+	rel := map[string]bool{}
+	var work []string
+	add := func(sy string) {
+		if !rel[sy] {
+			rel[sy] = true
+			work = append(work, sy)
+		}
+	}
+	for _, sy := range localSymRe.FindAllString(goal, -1) {
+		add(sy)
+	}
+	keep := make([]bool, len(facts))
+	for len(work) > 0 {
+		sy := work[len(work)-1]
+		work = work[:len(work)-1]
+		for _, i := range defOf[sy] {
+			if !keep[i] && !strings.Contains(facts[i], "(forall") {
+				keep[i] = true
+				for _, s2 := range syms[i] {
+					add(s2)
+				}
+			}
+		}
+	}
+	for i, f := range facts {
+		if keep[i] || isDecl[i] != "" || isDef[i] || strings.Contains(f, "(forall") || strings.Contains(f, "(exists") {
+			continue
+		}
+		if len(syms[i]) == 0 {
+			continue
+		}
+		all := true
+		for _, sy := range syms[i] {
+			if !rel[sy] {
+				all = false
+				break
+			}
+		}
+		if all {
+			keep[i] = true
+		}
+	}
+	var out []string
+	for i, f := range facts {
+		if isDecl[i] != "" {
+			if rel[isDecl[i]] {
 				out = append(out, f)
 			}
 			continue
